@@ -502,9 +502,11 @@ impl CellWrite for Sink {
 
 /// The SGR tokens of the alphabet: the codes the library's SGR interpreter has an arm for
 /// (which includes everything its encoder emits at any depth), minus 21 (see `run`).
-const TOKENS: [&str; 24] = [
+const TOKENS: [&str; 25] = [
     "0", "", "1", "22", "3", "23", "4", "4:2", "4:3", "4:5", "24", "5", "25", "9", "29", "31", "42", "91", "102",
     "38;5;196", "48;5;244", "38;2;1;128;255", "48:2::3:4:5", "58;2;7;8;9",
+    // italic, written with twenty digits (leading zeros of a parameter are not significant, ECMA-48 5.4.1)
+    "00000000000000000003",
 ];
 /// The text written after every sequence (two bytes, so a cut can fall inside it).
 const TEXT: char = '\u{e9}';
